@@ -83,4 +83,17 @@ def Json.noNullMembers : List (String × Json) → Bool
   | (_, a) :: rest => Json.noNull a && Json.noNullMembers rest
 end
 
+mutual
+/-- `uniform` in the tree and in every template (through children and templates): what a tree built by the
+constructors of the real library satisfies, bins or no bins -/
+def uniformT : Agg → Bool
+  | .node k e st tmpl kids => uniform (.node k e st tmpl kids) && uniformTOpt tmpl && uniformTKids kids
+def uniformTOpt : Option Agg → Bool
+  | none => true
+  | some t => uniformT t
+def uniformTKids : List (Key × Agg) → Bool
+  | [] => true
+  | (_, a) :: rest => uniformT a && uniformTKids rest
+end
+
 end Hg
